@@ -52,11 +52,15 @@ impl Check for C09 {
             Phase { name: "fault planted at each depth of nested recipients / signatures", cases: scale(if q { 4000 } else { 60000 }, b), exhaustive: false },
             Phase { name: "nested slot holding one bare COSE_Signature / COSE_recipient instead of an array of them; nested arrays of 250-300 entries with a fault at a late index", cases: scale(if q { 200 } else { 4000 }, b), exhaustive: false },
             Phase { name: "recipient layers (0-13) x counter-signature chain length (0-10) x chain form (5): whether the innermost recipient's header is accepted does not depend on how many recipient layers enclose it", cases: 11 * 5, exhaustive: true },
+            Phase { name: "birthday: COSE_Sign1 whose protected header carries 2^18 pairwise distinct labels", cases: 1, exhaustive: true },
         ]
     }
     fn run_case(&self, ctx: &mut Ctx, phase: usize, idx: u64) {
         let ty = MSG_TYPES[(idx % 8) as usize];
         match phase {
+            7 => {
+                super::common::birthday_case(ctx, 6);
+            }
             0 => iff::valid_case(ctx, ty, &MSG_TYPES),
             1 => iff::enum_case(ctx, ty, SALT, idx / 8, &MSG_TYPES, 1),
             2 => iff::mutant_case(ctx, ty, &MSG_TYPES),
@@ -140,7 +144,7 @@ impl Check for C09 {
             }
             _ => {
                 // deep nesting: a fault at a chosen depth of a recipient chain / signer list
-                let o = GenOpts { styled_prot: 128, built: false, max_depth: 3 };
+                let o = GenOpts { styled_prot: 128, built: false, max_depth: 3, mixed: false };
                 let depth = 1 + ctx.rng.below(3);
                 let mut r = gen::gen_recipient(&mut ctx.rng, &o, 3);
                 r.recipients.clear();
@@ -168,7 +172,7 @@ impl Check for C09 {
         }
     }
     fn rule(&self) -> String {
-        "wire items generated as: valid COSE_Sign1/Sign/Signature/Mac/Mac0/Encrypt/Encrypt0/recipient values (nesting <= 3, styled protected headers, distinct slot values) in canonical + 3 random encodings; the complete single-fault neighbourhood of fixed bases of each type; 1-3 random faults; arrays of arity 0-7 over slot palettes (valid for the slot, valid for another slot, every other CBOR kind); faults planted at each depth of nested recipients; recipients under 0-13 enclosing recipient layers whose innermost protected header holds a chain of 0-10 counter signatures in five forms (relation: acceptance of the header does not depend on the number of enclosing layers). Every input is offered to all eight types (shared shapes) through from_slice, from_cbor_value and, for taggable types, from_tagged_slice. Oracle: accept iff the reference model accepts, then every field equals its slot. Non-trivial = distinct encodings.".into()
+        "wire items generated as: valid COSE_Sign1/Sign/Signature/Mac/Mac0/Encrypt/Encrypt0/recipient values (nesting <= 3, styled protected headers, distinct slot values) in canonical + 3 random encodings; the complete single-fault neighbourhood of fixed bases of each type; 1-3 random faults; arrays of arity 0-7 over slot palettes (valid for the slot, valid for another slot, every other CBOR kind); faults planted at each depth of nested recipients; recipients under 0-13 enclosing recipient layers whose innermost protected header holds a chain of 0-10 counter signatures in five forms (relation: acceptance of the header does not depend on the number of enclosing layers). Every input is offered to all eight types (shared shapes) through from_slice, from_cbor_value and, for taggable types, from_tagged_slice. Oracle: accept iff the reference model accepts, then every field equals its slot. Birthday workload: 2^18 pairwise distinct labels (8-character texts / 64-bit integers / private-use integers) in one map must all be accepted and come back in order (a duplicate detector keyed on anything shorter than the label would report a duplicate that is not there). Non-trivial = distinct encodings.".into()
     }
     fn assumptions(&self) -> Vec<String> {
         let mut v = super::std_assumptions();
